@@ -554,3 +554,14 @@ def replay(w, rec):
     import random
 
     run_case(rec, random.Random(0), w["cell"], w["kind"], w["node"], w["decls"])
+
+
+# workloads added after the seventh round of seeded changes (DESIGN section 9): part of the rule of this check
+_RULE_ADDENDUM = "vector @ constant 2-D array cells (refused, or NumPy's M.T @ x)"
+_info_base = info
+
+
+def info(tier):  # noqa: F811
+    d = _info_base(tier)
+    d["rule"] = d["rule"] + "; " + _RULE_ADDENDUM
+    return d
